@@ -109,11 +109,20 @@ pub fn plan(p: u32, tier: &str) -> Vec<Run> {
         x.faults = faults;
         x
     };
+    // 4 slots, two evaluations: failure-free build of any sub-configuration, then at most one edit
+    // (job or dependency added/removed, one input changed, one output deleted) with every fault
+    let s4d2ff = || {
+        let mut x = s("S4D2-k1-ff", 2, m);
+        x.edit_bound = Some(1);
+        x.faults = vec![false, true];
+        x
+    };
     let eph_shapes = ["late-requirement", "E-E-O+A", "E-E-E-O+A", "E-E-O+A-mid", "E-O-E-O"];
     match p {
         1 => {
             add(s3(true), families::slots(3));
             add(s4(false), families::slots(4));
+            add(s4d2ff(), families::slots(4));
             let mut ig = s("S3D2-ignore", 2, m);
             ig.faults = vec![true, false];
             add(ig, families::slots_ignore(3));
@@ -137,6 +146,7 @@ pub fn plan(p: u32, tier: &str) -> Vec<Run> {
         2 => {
             add(s3(false), families::slots(3));
             add(s4(false), families::slots(4));
+            add(s4d2ff(), families::slots(4));
             add(shapes_spec("eph-shapes-D2", 2, false), shapes_named(&eph_shapes));
             if thorough {
                 add(s3d3(), families::slots(3));
@@ -152,6 +162,7 @@ pub fn plan(p: u32, tier: &str) -> Vec<Run> {
         3 | 4 => {
             add(s3(true), families::slots(3));
             add(s4(false), families::slots(4));
+            add(s4d2ff(), families::slots(4));
             add(rename("rename-prod", Conv::Parts, Cmp::Prod), families::rename_opts(true, Kind::O, false));
             add(rename("rename-test", Conv::JobIds, Cmp::Plain), families::rename_opts(false, Kind::O, false));
             add(noise("S3D2-noise", 2, false, false), families::slots(3));
@@ -177,6 +188,7 @@ pub fn plan(p: u32, tier: &str) -> Vec<Run> {
         5 => {
             add(s3(false), families::slots(3));
             add(s4(false), families::slots(4));
+            add(s4d2ff(), families::slots(4));
             let mut o = s("S3D2-orders", 2, m);
             o.orders = Orders::AllNodes;
             add(o, families::slots(3));
@@ -196,6 +208,7 @@ pub fn plan(p: u32, tier: &str) -> Vec<Run> {
         6 => {
             add(s3(true), families::slots(3));
             add(s4(false), families::slots(4));
+            add(s4d2ff(), families::slots(4));
             add(shapes_spec("shapes-D2", 2, false), families::shapes(true));
             add(rename("rename-prod", Conv::Parts, Cmp::Prod), families::rename_opts(false, Kind::O, false));
             if thorough {
@@ -213,6 +226,7 @@ pub fn plan(p: u32, tier: &str) -> Vec<Run> {
         7 => {
             add(s3(false), families::slots(3));
             add(s4(false), families::slots(4));
+            add(s4d2ff(), families::slots(4));
             add(shapes_spec("shapes-D2", 2, false), families::shapes(true));
             if thorough {
                 add(s3d3(), families::slots(3));
@@ -243,6 +257,7 @@ pub fn plan(p: u32, tier: &str) -> Vec<Run> {
         10 => {
             add(s3(false), families::slots(3));
             add(s4(false), families::slots(4));
+            add(s4d2ff(), families::slots(4));
             add(shapes_spec("shapes-D1", 1, false), families::shapes(true));
             if thorough {
                 add(s3d3(), families::slots(3));
@@ -256,6 +271,7 @@ pub fn plan(p: u32, tier: &str) -> Vec<Run> {
         11 => {
             add(s3(true), families::slots(3));
             add(s4(false), families::slots(4));
+            add(s4d2ff(), families::slots(4));
             add(rename("rename-prod", Conv::Parts, Cmp::Prod), families::rename_opts(false, Kind::O, false));
             add(noise("S3D2-noise", 2, false, false), families::slots(3));
             if thorough {
@@ -283,6 +299,7 @@ pub fn plan(p: u32, tier: &str) -> Vec<Run> {
         13 => {
             add(s3(false), families::slots(3));
             add(s4(false), families::slots(4));
+            add(s4d2ff(), families::slots(4));
             add(shapes_spec("shapes-D2", 2, false), families::shapes(true));
             if thorough {
                 add(s3d3(), families::slots(3));
@@ -356,6 +373,7 @@ pub fn plan(p: u32, tier: &str) -> Vec<Run> {
         17 => {
             add(s3(false), families::slots(3));
             add(s4(false), families::slots(4));
+            add(s4d2ff(), families::slots(4));
             add(shapes_spec("shapes-D2", 2, false), families::shapes(true));
             if thorough {
                 add(s3d3(), families::slots(3));
@@ -369,6 +387,7 @@ pub fn plan(p: u32, tier: &str) -> Vec<Run> {
         18 => {
             add(s3(false), families::slots(3));
             add(s4(false), families::slots(4));
+            add(s4d2ff(), families::slots(4));
             add(rename("rename-prod", Conv::Parts, Cmp::Prod), families::rename_opts(true, Kind::O, false));
             add(rename("rename-test", Conv::JobIds, Cmp::Plain), families::rename_opts(true, Kind::O, false));
             if thorough {
